@@ -386,3 +386,78 @@ func typeString(t types.Type) string {
 }
 
 var _ = fmt.Sprint
+
+// ---- sync.Map: an ordered map keyed by interface values, kept in a side table ----
+
+func (i *interpreter) syncMap(recv value) *omap {
+	tab, _ := i.ext["syncmap"].(map[*value]*omap)
+	if tab == nil {
+		tab = map[*value]*omap{}
+		i.ext["syncmap"] = tab
+	}
+	p := recv.(*value)
+	m := tab[p]
+	if m == nil {
+		m = makeMap(types.NewInterfaceType(nil, nil), 0).(*omap)
+		tab[p] = m
+	}
+	return m
+}
+
+func init() {
+	registerIntrinsic("(*sync.Map).Load", func(i *interpreter, fr *frame, fn *ssa.Function, a []value) value {
+		v, ok := i.syncMap(a[0]).lookup(a[1])
+		if !ok {
+			return tuple{iface{}, false}
+		}
+		return tuple{v, true}
+	})
+	registerIntrinsic("(*sync.Map).Store", func(i *interpreter, fr *frame, fn *ssa.Function, a []value) value {
+		i.ctx.noEffect("sync.Map.Store")
+		i.syncMap(a[0]).insert(a[1], a[2])
+		return nil
+	})
+	registerIntrinsic("(*sync.Map).LoadOrStore", func(i *interpreter, fr *frame, fn *ssa.Function, a []value) value {
+		m := i.syncMap(a[0])
+		if v, ok := m.lookup(a[1]); ok {
+			return tuple{v, true}
+		}
+		i.ctx.noEffect("sync.Map.LoadOrStore")
+		m.insert(a[1], a[2])
+		return tuple{a[2], false}
+	})
+	registerIntrinsic("(*sync.Map).LoadAndDelete", func(i *interpreter, fr *frame, fn *ssa.Function, a []value) value {
+		m := i.syncMap(a[0])
+		v, ok := m.lookup(a[1])
+		if !ok {
+			return tuple{iface{}, false}
+		}
+		i.ctx.noEffect("sync.Map.LoadAndDelete")
+		m.delete(a[1])
+		return tuple{v, true}
+	})
+	registerIntrinsic("(*sync.Map).Delete", func(i *interpreter, fr *frame, fn *ssa.Function, a []value) value {
+		i.ctx.noEffect("sync.Map.Delete")
+		i.syncMap(a[0]).delete(a[1])
+		return nil
+	})
+	registerIntrinsic("(*sync.Map).Clear", func(i *interpreter, fr *frame, fn *ssa.Function, a []value) value {
+		i.ctx.noEffect("sync.Map.Clear")
+		i.syncMap(a[0]).clear()
+		return nil
+	})
+	registerIntrinsic("(*sync.Map).Range", func(i *interpreter, fr *frame, fn *ssa.Function, a []value) value {
+		m := i.syncMap(a[0])
+		keys := append([]value(nil), m.keys...)
+		for _, k := range keys {
+			v, ok := m.lookup(k)
+			if !ok {
+				continue
+			}
+			if !i.ctx.concretizeBool(i.lastPos, call(i, fr, i.lastPos, a[1], []value{k, v})) {
+				break
+			}
+		}
+		return nil
+	})
+}
